@@ -1,0 +1,35 @@
+//go:build verif
+
+package executor
+
+import "github.com/buildbuildio/pebbles/planner"
+
+// VerifNewDepthExecutor builds a DepthExecutor for the verification harness (the ctx field is unexported).
+func VerifNewDepthExecutor(ctx *ExecutionContext, steps []*planner.QueryPlanStep, depth int) *DepthExecutor {
+	return &DepthExecutor{
+		ctx:                ctx,
+		QueryPlanSteps:     steps,
+		Depth:              depth,
+		PointDataExtractor: &CachedPointDataExtractor{cache: make(map[string]*PointData)},
+	}
+}
+
+// VerifExecuteRequests exposes executeRequests: the response handed to every execution request, by index.
+func (de *DepthExecutor) VerifExecuteRequests(ers []*ExecutionRequest) ([]map[string]interface{}, error) {
+	qResps, err := de.executeRequests(ers)
+	if err != nil {
+		return nil, err
+	}
+	out := make([]map[string]interface{}, len(qResps))
+	for i, r := range qResps {
+		if r != nil {
+			out[i] = r.Response
+		}
+	}
+	return out, nil
+}
+
+// VerifMergeMaps / VerifMergeSlices expose the stitching helpers.
+func VerifMergeMaps(left, right map[string]interface{}) map[string]interface{} {
+	return mergeMaps(left, right)
+}
